@@ -320,6 +320,7 @@ def sign_of(ctx, e, at, depth=0):
 
 _CMPS = (ast.Lt, ast.LtE, ast.Gt, ast.GtE)
 _FLIP = {ast.Lt: ast.Gt, ast.LtE: ast.GtE, ast.Gt: ast.Lt, ast.GtE: ast.LtE}
+_COMPLEMENT = {ast.Lt: ast.GtE, ast.LtE: ast.Gt, ast.Gt: ast.LtE, ast.GtE: ast.Lt}
 
 
 class BTest:
@@ -328,6 +329,7 @@ class BTest:
     def __init__(self, cmp, kind, strict, point, end, end_at, sgn, tol, tol_at):
         self.cmp, self.kind, self.strict, self.point = cmp, kind, strict, point
         self.end, self.end_at, self.sgn, self.tol, self.tol_at = end, end_at, sgn, tol, tol_at
+        self.neg = False        # True: written as the complementary in-bounds comparison under all()
 
 
 def _decomp(ctx, b, at, depth=0):
@@ -383,14 +385,105 @@ def bounds_tests(ctx, test, at):
         point, bound = (l, r) if gr else (r, l)
         if gl:
             op = _FLIP[op]
+        neg = _reducer(c) == 'all'
+        if neg:
+            op = _COMPLEMENT[op]        # all(p >= lo) == not any(p < lo)
         d = _decomp(ctx, bound, at)
         if d is None or d == 'odd':
             odd.append((c, f'bound `{astx.src(bound)}` is not of the form grid_end, grid_end + tol or grid_end - tol'))
             continue
         end, end_at, sgn, tol, tol_at = d
-        good.append(BTest(c, 'low' if op in (ast.Lt, ast.LtE) else 'high', op in (ast.Lt, ast.Gt), point,
-                          end, end_at, sgn, tol, tol_at))
+        bt = BTest(c, 'low' if op in (ast.Lt, ast.LtE) else 'high', op in (ast.Lt, ast.Gt), point,
+                   end, end_at, sgn, tol, tol_at)
+        bt.neg = neg
+        good.append(bt)
     return good, odd
+
+
+def _reducer(c):
+    """'any' / 'all' when expression c is the argument of (np.)any/all(...) or the receiver of .any()/.all()."""
+    while isinstance(getattr(c, '_parent', None), ast.BinOp) and isinstance(c._parent.op, (ast.BitOr, ast.BitAnd)):
+        c = c._parent
+    p = getattr(c, '_parent', None)
+    if isinstance(p, ast.Call) and c in p.args and astx.callee_attr(p) in ('any', 'all'):
+        return astx.callee_attr(p)
+    if isinstance(p, ast.Attribute) and p.attr in ('any', 'all') and isinstance(getattr(p, '_parent', None), ast.Call) \
+            and not p._parent.args:
+        return p.attr
+    return None
+
+
+def oob_formula(test, good):
+    """The `if` test as a boolean function of L ("some point below the lower end") and H ("some point above the
+    upper end"): returns f(L, H) -> bool, or None when the test is not built from the recognised comparisons
+    with not / and / or / any / all / elementwise | only."""
+    by_id = {id(bt.cmp): bt for bt in good}
+
+    def build(e, elementwise=False):
+        if isinstance(e, ast.BoolOp) and not elementwise:
+            subs = [build(v) for v in e.values]
+            if any(f is None for f in subs):
+                return None
+            if isinstance(e.op, ast.And):
+                return lambda L, H: all(f(L, H) for f in subs)
+            return lambda L, H: any(f(L, H) for f in subs)
+        if isinstance(e, ast.UnaryOp) and isinstance(e.op, ast.Not) and not elementwise:
+            f = build(e.operand)
+            return None if f is None else (lambda L, H: not f(L, H))
+        if isinstance(e, ast.Call) and not elementwise:
+            arg = None
+            if astx.callee_attr(e) in ('any', 'all'):
+                if len(e.args) == 1 and not e.keywords:
+                    arg = e.args[0]
+                elif not e.args and isinstance(e.func, ast.Attribute):
+                    arg = e.func.value
+            if arg is None:
+                return None
+            if astx.callee_attr(e) == 'any':
+                return build(arg, elementwise='any')
+            f = build(arg, elementwise='all')
+            return f
+        if isinstance(e, ast.BinOp) and isinstance(e.op, (ast.BitOr, ast.BitAnd)) and elementwise:
+            # any(a | b) == any(a) or any(b);  all(a & b) == all(a) and all(b)
+            if (elementwise == 'any') != isinstance(e.op, ast.BitOr):
+                return None
+            a, b = build(e.left, elementwise), build(e.right, elementwise)
+            if a is None or b is None:
+                return None
+            if elementwise == 'any':
+                return lambda L, H: a(L, H) or b(L, H)
+            return lambda L, H: a(L, H) and b(L, H)
+        if isinstance(e, ast.Compare) and id(e) in by_id:
+            bt = by_id[id(e)]
+            low = bt.kind == 'low'
+            if elementwise == 'all':
+                if not bt.neg:
+                    return None
+                return (lambda L, H: not L) if low else (lambda L, H: not H)
+            if bt.neg:
+                return None
+            return (lambda L, H: L) if low else (lambda L, H: H)
+        return None
+    return build(test)
+
+
+def raise_side(test, good):
+    """('true'|'false', None) = the branch of the `if` taken exactly when a point is out of bounds;
+    (None, reason) when the test is something else; (None, None) when it is not recognised."""
+    f = oob_formula(test, good)
+    if f is None:
+        return None, None
+    kinds = {bt.kind for bt in good}
+    table = {(L, H): bool(f(L, H)) for L in (False, True) for H in (False, True)
+             if (L <= ('low' in kinds)) and (H <= ('high' in kinds))}
+    if all(v == (L or H) for (L, H), v in table.items()):
+        return 'true', None
+    if all(v == (not (L or H)) for (L, H), v in table.items()):
+        return 'false', None
+    if all(v == (L and H) for (L, H), v in table.items()) or all(v == (not (L and H)) for (L, H), v in table.items()):
+        return None, ('the lower and upper tests are combined so that a point only counts as out of bounds when it is '
+                      'below the lower end and above the upper end at once')
+    return None, 'the combination of the lower and upper tests is not "below the lower end or above the upper end"'
 
 
 def _is_oob_raise(st):
@@ -488,47 +581,38 @@ def eps(repo, out):
         if 'OutOfBoundsError' not in repo.source(rel):
             continue
         for fn in repo.module(rel).funcs.values():
-            gr = guarded_raises(fn)
-            if not gr:
+            if not any(_is_oob_raise(st) for st in astx.walk_stmts(fn.node.body)):
                 continue
             ctx = Ctx(fn)
-            done = set()
-            for st, chain in gr:
-                for ifst, _ in chain:
-                    if id(ifst) in done:
+            for ifst, good, odd in _bounds_ifs(ctx):
+                ends = [bt for bt in good if bt.tol is not None or
+                        ctx.idx_kind(bt.end.slice, bt.end.value, bt.end_at) in (('first', 0), ('last', 0))]
+                if not ends:
+                    continue        # a comparison of the search itself (grid[low]), not an out-of-bounds decision
+                for c, why in odd:
+                    out.unsure(fn, c, why)
+                for bt in ends:
+                    v, why, _ = slack_verdict(ctx, bt)
+                    if v == 'unsure':
+                        out.unsure(fn, bt.cmp, why)
                         continue
-                    done.add(id(ifst))
-                    at = ctx.g.nodes_of(ifst)
-                    if not at:
-                        continue
-                    good, odd = bounds_tests(ctx, ifst.test, at[0])
-                    for c, why in odd:
-                        out.unsure(fn, c, why)
-                    for bt in good:
-                        v, why, _ = slack_verdict(ctx, bt)
-                        if v == 'ok':
-                            out.ok(fn, bt.cmp, why)
-                            if (rel, fn.qualname) == (INTERP, 'InterpND._interpolate'):
-                                seen_anchor += 1
-                        elif v == 'bad':
-                            out.bad(fn, bt.cmp, why, key=f'tolerance-{bt.kind}')
-                            if (rel, fn.qualname) == (INTERP, 'InterpND._interpolate'):
-                                seen_anchor += 1
-                        else:
-                            out.unsure(fn, bt.cmp, why)
+                    if v == 'ok':
+                        out.ok(fn, bt.cmp, why)
+                    else:
+                        out.bad(fn, bt.cmp, why, key=f'tolerance-{bt.kind}')
+                    if (rel, fn.qualname) == (INTERP, 'InterpND._interpolate'):
+                        seen_anchor += 1
     if seen_anchor < 2:
         raise AnalysisError('the two bounds comparisons of InterpND._interpolate were not recognised')
 
 
 # ============================================================================== C15.bounds (BOOL)
-def _any_wrapped(c):
-    """True if Compare c is the argument of np.any(...) / any(...) or the receiver of .any()."""
-    p = getattr(c, '_parent', None)
-    if isinstance(p, ast.Call) and c in p.args and astx.callee_attr(p) == 'any':
-        return True
-    if isinstance(p, ast.Attribute) and p.attr == 'any' and isinstance(getattr(p, '_parent', None), ast.Call):
-        return True
-    return False
+def _reduced(c):
+    """True if the elementwise comparison c (possibly combined with | or &) is reduced by any()/all()."""
+    e = c
+    while isinstance(getattr(e, '_parent', None), ast.BinOp) and isinstance(e._parent.op, (ast.BitOr, ast.BitAnd)):
+        e = e._parent
+    return _reducer(e) is not None
 
 
 def _walk_flag_false(g, starts, stop=()):
@@ -555,13 +639,20 @@ def _walk_flag_false(g, starts, stop=()):
     return seen
 
 
-def _escapes(ctx, ifst):
-    """A node outside the true branch of *ifst* that is reached normally from it with the flag off, or None."""
+def _escapes(ctx, ifst, side='true'):
+    """A node showing that the out-of-bounds side of *ifst* can continue normally when the flag is off (it
+    reaches the function exit or the header of an enclosing loop, i.e. the next axis / search step), or None."""
     g = ctx.g
+    stops = set()
+    for a in astx.ancestors(ifst):
+        if a is ctx.fn.node:
+            break
+        if isinstance(a, (ast.For, ast.While)):
+            stops.update(g.nodes_of(a))
     for t in g.nodes_of(ifst):
-        starts = [m for m, lab in g.succ[t] if lab == 'true']
-        for n in _walk_flag_false(g, starts):
-            if n is g.exit or (n.kind not in ('entry', 'raise', 'join') and not g.inside(n, ifst, 'body')):
+        starts = [m for m, lab in g.succ[t] if lab == side]
+        for n in _walk_flag_false(g, starts, stop=stops):
+            if n is g.exit or n in stops:
                 return n
     return None
 
@@ -663,6 +754,10 @@ def bounds(repo, out):
                     isinstance(axis.slice, ast.Name) and axis.slice.id == ivar):
                 problems.append((bt.cmp, f'column {ivar} of the points is compared with `{astx.src(axis)}` instead of '
                                  f'self.grid[{ivar}]', 'axis'))
+            if not _reduced(bt.cmp):
+                out.unsure(fn, bt.cmp, 'elementwise comparison is not reduced with any() / all()')
+                problems = None
+                break
             if not (isinstance(bt.point, ast.Name) and bt.point.id == pvar):
                 if isinstance(bt.point, ast.Name):
                     problems.append((bt.cmp, f'`{bt.point.id}` is tested instead of the column `{pvar}`', 'point'))
@@ -670,23 +765,19 @@ def bounds(repo, out):
                     out.unsure(fn, bt.cmp, f'tested quantity `{astx.src(bt.point)}` not recognised')
                     problems = None
                     break
-            if not _any_wrapped(bt.cmp):
-                out.unsure(fn, bt.cmp, 'elementwise comparison is not reduced with any()')
-                problems = None
-                break
         if problems is not None:
             if kinds != {'low', 'high'}:
                 missing = ({'low', 'high'} - kinds).pop()
                 problems.append((ifst, f'no test against the {"lower" if missing == "low" else "upper"} end of the '
                                  'grid: points beyond it are not rejected', 'missing-' + missing))
-            # connective: every comparison must be able to trigger the raise on its own
-            t = ifst.test
-            if isinstance(t, ast.BoolOp) and isinstance(t.op, ast.And) and len(good) > 1:
-                problems.append((ifst, 'the lower and upper tests are joined with `and`: a point is only rejected '
-                                 'when it is below the lower end and above the upper end at once', 'connective'))
-            elif not (isinstance(t, ast.BoolOp) and isinstance(t.op, ast.Or)) and len(good) > 1:
-                out.unsure(fn, ifst, 'connective of the bounds test not recognised')
+            # connective: the raising branch is taken exactly when a point is below the lower or above the upper end
+            side, why_ = raise_side(ifst.test, good)
+            if side is None and why_ is None:
+                out.unsure(fn, ifst, 'structure of the bounds test (not/and/or/any/all over the two comparisons) not '
+                           'recognised')
                 problems = None
+            elif side is None:
+                problems.append((ifst, why_, 'connective'))
         if problems is not None:
             for node, why, key in problems:
                 out.bad(fn, node, why, key=key)
@@ -703,9 +794,15 @@ def bounds(repo, out):
             else:
                 out.ok(fn, bt.cmp, 'boundary point is accepted')
     # (4) the true branch raises on every path, and nothing leaves the loop before every axis was tested
-    w = _escapes(ctx, ifst)
-    oob = [r for r in astx.walk_stmts(ifst.body) if _is_oob_raise(r)]
-    if w is not None:
+    side = raise_side(ifst.test, good)[0] if (good and not odd) else None
+    w = _escapes(ctx, ifst, side) if side else None
+    region = set()
+    for t_ in g.nodes_of(ifst):
+        region |= _walk_flag_false(g, [m for m, lab in g.succ[t_] if lab == side]) if side else set()
+    oob = [n.ast for n in region if n.kind == 'stmt' and _is_oob_raise(n.ast)]
+    if side is None:
+        pass            # already reported above (connective wrong or not recognised)
+    elif w is not None:
         out.bad(fn, ifst, f'out-of-bounds branch can continue normally (reaches `{w.text()[:60]}`): no error is '
                 'raised for a point outside the grid', key='raises')
     elif not oob:
@@ -766,7 +863,11 @@ def bounds(repo, out):
         if okk is None or odd2:
             continue
         side = good2[0].kind
-        w = _escapes(cs, ifst2)
+        rs = raise_side(ifst2.test, good2)[0]
+        if rs != 'true':
+            out.unsure(fs, ifst2, 'out-of-bounds decision is not a plain comparison with the grid end')
+            continue
+        w = _escapes(cs, ifst2, rs)
         if w is not None:
             out.bad(fs, ifst2, f'with extrapolate False a point {"below" if side == "low" else "above"} the grid does '
                     f'not raise: the branch continues normally to `{w.text()[:50]}`', key='semi-raise-' + side)
@@ -832,10 +933,9 @@ def order(repo, out):
     ctx = Ctx(fn)
     g = ctx.g
     loops = []
-    for st, chain in guarded_raises(fn):
-        lp = astx.enclosing(st, (ast.For,))
-        if lp is not None and chain and any(bounds_tests(ctx, a.test, g.nodes_of(a)[0])[0]
-                                            for a, _ in chain if g.nodes_of(a)):
+    for ifst, good, _ in _bounds_ifs(ctx):
+        lp = astx.enclosing(ifst, (ast.For,))
+        if lp is not None and good:
             loops.extend(g.nodes_of(lp))
     if not loops:
         raise AnalysisError('bounds loop of InterpND._interpolate not found')
@@ -2208,6 +2308,26 @@ _CHECK_BODY = (
     '                    raise OutOfBoundsError("One of the requested xi is out of bounds",\n'
     '                                           i, value, self.grid[i][0], self.grid[i][-1])\n')
 _CHECK_BLOCK = '        if not self.extrapolate:\n' + _CHECK_BODY
+_GUARD_BODY = (
+    '            for i, p in enumerate(xi.T):\n'
+    '                grid_i = self.grid[i]\n'
+    '                lower = grid_i[0]\n'
+    '                upper = grid_i[-1]\n'
+    '\n'
+    '                if np.isnan(p).any():\n'
+    '                    raise OutOfBoundsError("One of the requested xi contains a NaN",\n'
+    '                                           i, np.nan, lower, upper)\n'
+    '\n'
+    '                eps = 1e-14 * abs(upper)\n'
+    '                if not (np.any(p < lower - eps) or np.any(p > upper + eps)):\n'
+    '                    continue\n'
+    '\n'
+    '                p1 = np.where(lower > p)[0]\n'
+    '                p2 = np.where(p > upper)[0]\n'
+    '                violated_idx = set(p1).union(p2).pop()\n'
+    '                value = p[violated_idx]\n'
+    '                raise OutOfBoundsError("One of the requested xi is out of bounds",\n'
+    '                                       i, value, lower, upper)\n')
 _CHECK_BLOCK_FLIPPED = '        if self.extrapolate:\n            pass\n        else:\n' + _CHECK_BODY
 
 selftest(
@@ -2239,6 +2359,24 @@ selftest(
            '                                           i, value, self.grid[i][0], self.grid[i][-1])\n',
            '                                           i, value, self.grid[i][0], self.grid[i][-1])\n                break\n',
            'C15.bounds'),
+    Mutant('guard-clause-wrong-polarity', _I, _CHECK_BODY, _GUARD_BODY.replace(
+        'if not (np.any(p < lower - eps) or np.any(p > upper + eps)):',
+        'if np.any(p < lower - eps) or np.any(p > upper + eps):'), 'C15.bounds'),
+    Mutant('guard-clause-demorgan-wrong', _I, _CHECK_BODY, _GUARD_BODY.replace(
+        'if not (np.any(p < lower - eps) or np.any(p > upper + eps)):',
+        'if not (np.any(p < lower - eps) and np.any(p > upper + eps)):'), 'C15.bounds'),
+    Mutant('guard-clause-all-or', _I, _CHECK_BODY, _GUARD_BODY.replace(
+        'if not (np.any(p < lower - eps) or np.any(p > upper + eps)):',
+        'if np.all(p >= lower - eps) or np.all(p <= upper + eps):'), 'C15.bounds'),
+    Mutant('guard-clause-signed-eps', _I, _CHECK_BODY, _GUARD_BODY.replace('eps = 1e-14 * abs(upper)', 'eps = 1e-14 * upper'),
+           'C15.eps'),
+    Mutant('guard-clause-swapped-ends', _I, _CHECK_BODY, _GUARD_BODY.replace('lower = grid_i[0]', 'lower = grid_i[-1]')
+           .replace('upper = grid_i[-1]', 'upper = grid_i[0]'), 'C15.bounds'),
+    Mutant('guard-clause-no-raise', _I, _CHECK_BODY, _GUARD_BODY.replace(
+        '                raise OutOfBoundsError("One of the requested xi is out of bounds",',
+        '                err = OutOfBoundsError("One of the requested xi is out of bounds",'), 'C15.bounds'),
+    Mutant('guard-clause-evaluated', _I, _CHECK_BODY, _GUARD_BODY.replace('eps = 1e-14 * abs(upper)', 'eps = 1e-14 * upper'),
+           'C15.exact_slinear'),
     Mutant('bounds-upper-only', _I, _BT, 'if np.any(p > self.grid[i][-1] + eps):', 'C15.bounds'),
     Mutant('semi-nonstrict-low', _A, '                if x < grid[0]:\n                    if not self.extrapolate:',
            '                if x <= grid[0]:\n                    if not self.extrapolate:', 'C15.bounds'),
@@ -2468,6 +2606,12 @@ selftest(
            '        xnew = self._interpolate(x[:1])\n\n        if compute_derivative:', 'C15.entry'),
     # ---------------------------------------------------------------- twins
     Twin('twin-flag-branches-swapped', _I, _CHECK_BLOCK, _CHECK_BLOCK_FLIPPED),
+    Twin('twin-guard-clause-hoisted', _I, _CHECK_BODY, _GUARD_BODY),
+    Twin('twin-guard-clause-all', _I, _CHECK_BODY, _GUARD_BODY.replace(
+        'if not (np.any(p < lower - eps) or np.any(p > upper + eps)):',
+        'if np.all(p >= lower - eps) and np.all(upper + eps >= p):')),
+    Twin('twin-elementwise-or', _I, _BT, 'if np.any((p < self.grid[i][0] - eps) | (p > self.grid[i][-1] + eps)):'),
+    Twin('twin-method-any', _I, _BT, 'if (p < self.grid[i][0] - eps).any() or (p > self.grid[i][-1] + eps).any():'),
     Twin('twin-l2-matmul', LAG2, 'a = np.einsum("mi,nj,ij->mn", termx, termy, all_val)', 'a = termx @ all_val @ termy.T'),
     Twin('twin-sl-2d-divide', _S, '        rec_vol = 1.0 / ((x0 - x1) * (y0 - y1))\n        return a * rec_vol',
          '        return a / ((x1 - x0) * (y1 - y0))'),
